@@ -1967,6 +1967,10 @@ def unknown_override(body):
     k = root_key(body)
     if k[1] in ITER_TRAITS and k[0] in OVERRIDE_PROPS and k not in HANDLERS and k not in ITER_HOOKS:
         return OVERRIDE_PROPS[k[0]]
+    if k[0] in (MAP, SET) and k[1] == 'PartialEq' and k[2] != 'eq':
+        return 'C14'       # a hand-written `ne`: its agreement with `!eq` is not established
+    if k[0] in (MAP, SET) and k[1] == 'Clone' and k[2] != 'clone':
+        return 'C15'       # a hand-written `clone_from`
     return None
 
 
@@ -2140,8 +2144,8 @@ def check_root(E, body, rr):
     uo = unknown_override(body)
     if uo:
         E.oblig('OVERRIDE', False, body.name,
-                'this iterator overrides %s::%s, for which no schema exists: its agreement with the default '
-                '(next-based) behaviour is not established' % (key[1], key[2]), 'unproven', props=[uo])
+                'this type overrides %s::%s, for which no schema exists: its agreement with the default '
+                'behaviour (derived from next / eq / clone) is not established' % (key[1], key[2]), 'unproven', props=[uo])
     ih = ITER_HOOKS.get(key)
     if ih is not None:
         ic = getattr(E, 'iter_classes', {})
